@@ -50,7 +50,7 @@ class Adapter(EnvAdapter):
                 _c("r1c3h2a2_s1q2_t3", 1, 3, 2, 2, 1, 2, 3, episodes=5, max_steps=6, policies=["carrier", "meet", "random"]),
                 _c("r1c3h1a1_s2q2_t60", 1, 3, 1, 1, 2, 2, 60, episodes=3, max_steps=64, policies=["deliver", "carrier"],
                    probe_every=2),
-                _c("r1c3h2a2_s2q4_t40", 1, 3, 2, 2, 2, 4, 40, episodes=5, max_steps=44, policies=polm, probe_every=3),
+                _c("r1c3h2a2_s2q4_t40", 1, 3, 2, 2, 2, 4, 40, episodes=6, max_steps=44, policies=polm, probe_every=3),
                 _c("default_t500", 2, 3, 8, 4, 1, 8, 500, gen="default", episodes=2, max_steps=504,
                    policies=["deliver", "carrier"], probe_every=40, probe_cap=30),
                 _c("r2c3h8a4_s2q8_t7", 2, 3, 8, 4, 2, 8, 7, episodes=3, max_steps=10, policies=["meet", "carrier", "random"],
